@@ -67,3 +67,9 @@ Qed.
 
 Lemma slice_full l : slice l 0 (length l) = l.
 Proof. unfold slice. rewrite Nat.sub_0_r. simpl. apply firstn_all. Qed.
+
+Definition ttype_of_code (z : Z) : ttype :=
+  match z with 1 => Eof | 2 => Eol | 3 => Float | 4 => Integer | 5 => HexDecimal | 6 => Number | 7 => Symbol
+             | 8 => Quoted | 9 => Word | 10 => Keyword | 11 => Whitespace | 12 => Comment | 13 => Special | _ => Unknown end.
+Lemma ttype_of_code_code t : ttype_of_code (ttype_code t) = t.
+Proof. destruct t; reflexivity. Qed.
